@@ -6,16 +6,17 @@ for registered names / IPv4 literals and for bracketed IPv6 literals.
 namespace C06
 open C06.Gen
 
-/-- a host character that cannot be mistaken for a delimiter of the authority -/
-def hostChar (c : Nat) : Bool := c < 128 && notIn authStop c && c != 64 && c != 58 && c != 91
+/-- a host character that cannot be mistaken for a delimiter of the authority (ASCII or not: with minimal quoting a
+    non-ASCII host is written and read back as it is) -/
+def hostChar (c : Nat) : Bool := notIn authStop c && c != 64 && c != 58 && c != 91
 
 /-- characters of an IPv6 literal: hexadecimal digits, `:` and `.` -/
 def v6Char (c : Nat) : Bool := isHexDigit c || c == 58 || c == 46
 
 theorem hostChar_spec {c : Nat} (h : hostChar c = true) :
-    c < 128 ∧ notIn authStop c = true ∧ c ≠ 64 ∧ c ≠ 58 ∧ c ≠ 91 := by
-  simp only [hostChar, Bool.and_eq_true, decide_eq_true_eq, bne_iff_ne, ne_eq] at h
-  exact ⟨h.1.1.1.1, h.1.1.1.2, h.1.1.2, h.1.2, h.2⟩
+    notIn authStop c = true ∧ c ≠ 64 ∧ c ≠ 58 ∧ c ≠ 91 := by
+  simp only [hostChar, Bool.and_eq_true, bne_iff_ne, ne_eq] at h
+  exact ⟨h.1.1.1, h.1.1.2, h.1.2, h.2⟩
 
 theorem auth_stops_ok : notIn authStop 58 = true ∧ notIn authStop 64 = true ∧
     notIn authStop 91 = true ∧ notIn authStop 93 = true ∧ notIn authStop 46 = true ∧
@@ -61,27 +62,29 @@ def hostText (u : URL) : Text := if u.family = .inet6 then 91 :: u.host ++ [93] 
 
 def hostinfo (u : URL) : Text := hostText u ++ portText u
 
-/-- the port is absent, or a positive number different from the scheme's default -/
+/-- the port is absent, or a positive number different from the scheme's default: it is rendered, and comes back -/
 def PortOK (u : URL) : Prop :=
   u.port = none ∨ ∃ p : Nat, u.port = some (Int.ofNat p) ∧ 0 < p ∧ some p ≠ defaultPort u.scheme
 
-/-- the host is a registered name / IPv4 literal that the idna codec leaves alone, or an IPv6
-    literal that `inet_pton` accepts -/
-inductive HostOK (env : Env) (full : Bool) (u : URL) : Prop where
-  | name (hh : ∀ c ∈ u.host, hostChar c = true)
-      (hfam : u.family = if env.fam4 u.host then .inet else .none)
-      (henc : full = true → env.idnaEnc u.host = some u.host)
-  | v6 (hfam : u.family = .inet6) (hh : ∀ c ∈ u.host, v6Char c = true) (h58 : 58 ∈ u.host)
-      (h6 : env.fam6 u.host = true)
+/-- the port is absent or any natural number (`port = *DIGIT`): zero and the scheme's default port included,
+    which `get_authority` does not render -/
+def PortNat (u : URL) : Prop := u.port = none ∨ ∃ p : Nat, u.port = some (Int.ofNat p)
 
-theorem portText_cases (u : URL) (h : PortOK u) :
-    (u.port = none ∧ portText u = []) ∨
-    (∃ p : Nat, u.port = some (Int.ofNat p) ∧ portText u = 58 :: showNat p) := by
+/-- the port that comes back after rendering and parsing: a zero / default port is not rendered, so it is gone -/
+def portBack (u : URL) : Option Int :=
+  match u.port with
+  | some p => if p ≠ 0 ∧ some p ≠ (defaultPort u.scheme).map Int.ofNat then some p else none
+  | none => none
+
+theorem PortOK.nat {u : URL} (h : PortOK u) : PortNat u := by
+  rcases h with h | ⟨p, hp, _, _⟩
+  · exact Or.inl h
+  · exact Or.inr ⟨p, hp⟩
+
+theorem portBack_of_ok {u : URL} (h : PortOK u) : portBack u = u.port := by
   rcases h with h | ⟨p, hp, hpos, hd⟩
-  · left; simp [portText, h]
-  · right
-    refine ⟨p, hp, ?_⟩
-    unfold portText
+  · simp [portBack, h]
+  · unfold portBack
     rw [hp]
     have h0 : (Int.ofNat p) ≠ 0 := by
       intro h; have : p = 0 := by exact Int.ofNat_eq_zero.mp h
@@ -97,7 +100,27 @@ theorem portText_cases (u : URL) (h : PortOK u) :
         exact hd (by rw [this])
     simp only []
     rw [if_pos ⟨h0, h1⟩]
-    rfl
+
+/-- the host is a registered name / IPv4 literal that the idna codec leaves alone, or an IPv6
+    literal that `inet_pton` accepts -/
+inductive HostOK (env : Env) (full : Bool) (u : URL) : Prop where
+  | name (hh : ∀ c ∈ u.host, hostChar c = true)
+      (hfam : u.family = if env.fam4 u.host then .inet else .none)
+      (henc : full = true → env.idnaEnc u.host = some u.host)
+  | v6 (hfam : u.family = .inet6) (hh : ∀ c ∈ u.host, v6Char c = true) (h58 : 58 ∈ u.host)
+      (h6 : env.fam6 u.host = true)
+
+theorem portText_cases (u : URL) (h : PortNat u) :
+    (portBack u = none ∧ portText u = []) ∨
+    (∃ p : Nat, portBack u = some (Int.ofNat p) ∧ portText u = 58 :: showNat p) := by
+  rcases h with h | ⟨p, hp⟩
+  · left; simp [portText, portBack, h]
+  · unfold portText portBack
+    rw [hp]
+    simp only []
+    split
+    · right; exact ⟨p, rfl, rfl⟩
+    · left; exact ⟨rfl, rfl⟩
 
 theorem authority_any (env : Env) (full : Bool) (u : URL) (hne : u.host ≠ []) (h : HostOK env full u) :
     authority env full u = .ok (uiText env u ++ hostinfo u) := by
@@ -121,11 +144,10 @@ theorem authority_any (env : Env) (full : Bool) (u : URL) (hne : u.host ≠ []) 
 structure HostFacts (env : Env) (u : URL) : Prop where
   ne : hostinfo u ≠ []
   chars : ∀ x ∈ hostinfo u, x ≠ 64 ∧ notIn authStop x = true
-  split : splitHostPort (hostinfo u) = .ok (hostText u, u.port)
+  split : splitHostPort (hostinfo u) = .ok (hostText u, portBack u)
   host : parseHost env (hostText u) = .ok (u.family, u.host)
-  ascii : isAsciiText u.host = true
 
-theorem portText_chars {u : URL} (hp : PortOK u) : ∀ x ∈ portText u, x ≠ 64 ∧ notIn authStop x = true := by
+theorem portText_chars {u : URL} (hp : PortNat u) : ∀ x ∈ portText u, x ≠ 64 ∧ notIn authStop x = true := by
   intro x hx
   rcases portText_cases u hp with ⟨_, ht⟩ | ⟨p, _, ht⟩
   · rw [ht] at hx; simp at hx
@@ -137,25 +159,25 @@ theorem portText_chars {u : URL} (hp : PortOK u) : ∀ x ∈ portText u, x ≠ 6
       refine ⟨?_, digit_notIn_authStop hd⟩
       simp [isDigit] at hd; omega
 
-theorem parsePort_portText_tail {u : URL} (hp : PortOK u) :
+theorem parsePort_portText_tail {u : URL} (hp : PortNat u) :
     parsePort (match portText u with
                | 58 :: r => r
-               | r => r) = .ok u.port := by
+               | r => r) = .ok (portBack u) := by
   rcases portText_cases u hp with ⟨hn, ht⟩ | ⟨p, hpp, ht⟩
   · rw [ht, hn]; simp [parsePort, pyInt?, pyNat?]
   · rw [ht, hpp]; simp [parsePort, pyInt_showNat]
 
-theorem hostFacts_name (env : Env) (u : URL) (hne : u.host ≠ []) (hp : PortOK u)
+theorem hostFacts_name (env : Env) (u : URL) (hne : u.host ≠ []) (hp : PortNat u)
     (hh : ∀ c ∈ u.host, hostChar c = true)
     (hfam : u.family = if env.fam4 u.host then .inet else .none) : HostFacts env u := by
   have h6 : u.family ≠ .inet6 := by rw [hfam]; split <;> simp
   have hht : hostText u = u.host := by simp [hostText, h6]
-  have h58 : ∀ x ∈ u.host, x ≠ 58 := fun x hx => (hostChar_spec (hh x hx)).2.2.2.1
-  refine ⟨by simp [hostinfo, hht, hne], ?_, ?_, ?_, ?_⟩
+  have h58 : ∀ x ∈ u.host, x ≠ 58 := fun x hx => (hostChar_spec (hh x hx)).2.2.1
+  refine ⟨by simp [hostinfo, hht, hne], ?_, ?_, ?_⟩
   · intro x hx
     rw [hostinfo, hht, List.mem_append] at hx
     rcases hx with hx | hx
-    · have := hostChar_spec (hh x hx); exact ⟨this.2.2.1, this.2.1⟩
+    · have := hostChar_spec (hh x hx); exact ⟨this.2.1, this.1⟩
     · exact portText_chars hp x hx
   · rw [hostinfo, hht]
     rcases portText_cases u hp with ⟨hn, ht⟩ | ⟨p, hpp, ht⟩
@@ -177,7 +199,7 @@ theorem hostFacts_name (env : Env) (u : URL) (hne : u.host ≠ []) (hp : PortOK 
         cases hhost : u.host with
         | nil => exact absurd hhost hne
         | cons x xs =>
-          have : x ≠ 91 := (hostChar_spec (hh x (by rw [hhost]; simp))).2.2.2.2
+          have : x ≠ 91 := (hostChar_spec (hh x (by rw [hhost]; simp))).2.2.2
           simp [this]
       simp only [hc, Bool.not_true, Bool.false_eq_true, if_false, hhead]
       rw [ha, hb]
@@ -186,10 +208,6 @@ theorem hostFacts_name (env : Env) (u : URL) (hne : u.host ≠ []) (hp : PortOK 
     unfold parseHost
     have hm : 58 ∉ u.host := fun h => h58 58 h rfl
     simp [hne, hm, hfam]
-  · unfold isAsciiText
-    rw [List.all_eq_true]
-    intro c hc
-    simpa using (hostChar_spec (hh c hc)).1
 
 /-! first-occurrence splitting of a text that contains the separator -/
 
@@ -245,7 +263,7 @@ theorem mem_after {c x : Nat} {s : Text} (h : x ∈ after c s) : x ∈ s := by
   unfold after at h
   exact (List.dropWhile_sublist _).subset (List.mem_of_mem_tail h)
 
-theorem hostFacts_v6 (env : Env) (u : URL) (hp : PortOK u)
+theorem hostFacts_v6 (env : Env) (u : URL) (hp : PortNat u)
     (hfam : u.family = .inet6) (hh : ∀ c ∈ u.host, v6Char c = true) (h58 : 58 ∈ u.host)
     (h6 : env.fam6 u.host = true) : HostFacts env u := by
   have hht : hostText u = 91 :: u.host ++ [93] := by simp [hostText, hfam]
@@ -256,7 +274,7 @@ theorem hostFacts_v6 (env : Env) (u : URL) (hp : PortOK u)
   have ha : after 58 (hostinfo u) = after 58 u.host ++ 93 :: portText u := by
     rw [hi, after_append_mem hm]; simp [after, neq, List.dropWhile]
   have h93 : ∀ x ∈ after 58 u.host, x ≠ 93 := fun x hx => (v6Char_spec (hh x (mem_after hx))).2.2.2.1
-  refine ⟨by simp [hi], ?_, ?_, ?_, ?_⟩
+  refine ⟨by simp [hi], ?_, ?_, ?_⟩
   · intro x hx
     rw [hi] at hx
     simp only [List.mem_append, List.mem_cons] at hx
@@ -282,12 +300,8 @@ theorem hostFacts_v6 (env : Env) (u : URL) (hp : PortOK u)
     have hl : (91 :: (u.host ++ [93])).getLast? = some 93 := by
       rw [List.getLast?_cons]; simp [List.getLast?_append]
     simp [h58, hl, hfam, h6]
-  · unfold isAsciiText
-    rw [List.all_eq_true]
-    intro c hc
-    simpa using (v6Char_spec (hh c hc)).1
 
-theorem hostFacts_of_ok (env : Env) (full : Bool) (u : URL) (hne : u.host ≠ []) (hp : PortOK u)
+theorem hostFacts_of_ok (env : Env) (full : Bool) (u : URL) (hne : u.host ≠ []) (hp : PortNat u)
     (h : HostOK env full u) : HostFacts env u := by
   cases h with
   | name hh hfam _ => exact hostFacts_name env u hne hp hh hfam
@@ -301,7 +315,7 @@ theorem parseAuthority_render (env : Env) (u : URL) (hf : HostFacts env u)
     parseAuthority env (uiText env u ++ hostinfo u) =
       .ok ⟨if u.username ≠ [] ∨ u.password ≠ [] then quoteFull userinfoMap env.nfc u.username else [],
            if u.password ≠ [] then quoteFull userinfoMap env.nfc u.password else [],
-           u.family, u.host, u.port⟩ := by
+           u.family, u.host, portBack u⟩ := by
   have hi64 : ∀ x ∈ hostinfo u, x ≠ 64 := fun x hx => (hf.chars x hx).1
   have hne' := hf.ne
   have hqu := quoteFull_stop .userinfo env.nfc u.username hsu
